@@ -400,7 +400,13 @@ func (s *Store) lookupSecretInternal(ctx context.Context, name string) (Secret, 
 		ch := s.single.DoChan("lookup:"+name, func() (any, error) {
 			sv, err := s.client.Get(ctx, name)
 			if err != nil {
-				return nil, fmt.Errorf("lookup %q: %w", name, err)
+				err = fmt.Errorf("lookup %q: %w", name, err)
+				if ctx.Err() != nil {
+					// The request ended because the context of the caller that
+					// issued it did. Callers sharing the request may try again.
+					return nil, issuerEndedError{err}
+				}
+				return nil, err
 			}
 
 			s.active.Lock()
@@ -433,17 +439,28 @@ func (s *Store) lookupSecretInternal(ctx context.Context, name string) (Secret, 
 		}
 		if err == nil {
 			return v.(Secret), nil
-		} else if errors.Is(err, context.DeadlineExceeded) || errors.Is(err, context.Canceled) {
+		} else if ie := (issuerEndedError{}); errors.As(err, &ie) {
 			if ctx.Err() == nil {
 				// This wasn't us timing out, try again.
 				continue
 			}
+			err = ie.err
 		}
 		// Reaching here, either we won the singleflight race and timed out, or
-		// we got a real error from the winner.
+		// we got a real error from the winner. (A request that the client itself
+		// gave up on, say after its own timeout, is a real error, even though
+		// net/http reports it as a context.DeadlineExceeded.)
 		return nil, err
 	}
 }
+
+// issuerEndedError marks the failure of a shared lookup request whose issuer's
+// context had ended, as distinct from a failure reported by the client while
+// that context was still live.
+type issuerEndedError struct{ err error }
+
+func (e issuerEndedError) Error() string { return e.err.Error() }
+func (e issuerEndedError) Unwrap() error { return e.err }
 
 // A Secret is a function that fetches the current active value of a secret.
 // The caller should not cache the value returned; the function does not block
